@@ -112,6 +112,9 @@ func c20Run(input string) string {
 	if len(parts) != 3 {
 		return "bad-input"
 	}
+	if parts[0] == "bbs2" {
+		return c20RunBBS2(parts[1], parts[2])
+	}
 	if parts[0] == "sd" {
 		return c20RunSD(parts[1], parts[2]) // SD-JWT credentials under limit_disclosure (c20sd.go)
 	}
